@@ -209,7 +209,11 @@ func (s *CommitStateDB) Finalise(deleteEmptyObjects bool) error {
 
 			// write any contract code associated with the state object
 			if stateEntry.stateObject.code != nil && stateEntry.stateObject.dirtyCode {
-				stateEntry.stateObject.commitCode()
+				// the store refuses some values (the deletion marker): without the error the
+				// account would be written with a code hash and no code
+				if err := stateEntry.stateObject.commitCode(); err != nil {
+					return err
+				}
 				stateEntry.stateObject.dirtyCode = false
 			}
 
